@@ -12,7 +12,7 @@ with the same parallel structures as the Python code:
 | `goals`                       | `goals`         | list of references: an objective, or the address of a `MaxSMTGoal` object |
 | `goals_backtrack`             | `goalsBt`       | most recent first                                          |
 | `max_smt_goals` (dict)        | `maxGoals`      | association list in insertion order: id ↦ (position, address) |
-| `max_smt_goals_backtrack` (`defaultdict(list)`) | `maxBt` | total function id ↦ list (most recent first); a missing key reads as `[]`, deleting a key stores `[]` |
+| `max_smt_goals_backtrack` (`defaultdict(list)`) | `maxBt` | total function (as a table `Tab`) id ↦ list (most recent first); a missing key reads as `[]`, deleting a key stores `[]` |
 | the `MaxSMTGoal` objects      | `heap`, `next`  | object store: address ↦ the object's `.soft` list; `next` = next fresh address |
 
 The `MaxSMTGoal` objects are *shared* between `goals` and `max_smt_goals` and mutated in place
@@ -45,8 +45,28 @@ structure MaxEntry where
   addr : Nat
   deriving Repr, DecidableEq, Inhabited
 
+/-- A total function `Nat → β` with finitely many updates, as data: the most recent update first, and the value
+    everywhere else.  (A Lean function built by nested `fun x => if x = a then v else h x` would be re-evaluated from
+    scratch at every application by the compiled code: definitions returning functions are eta-expanded.) -/
+structure Tab (β : Type) where
+  entries : List (Nat × β)
+  dflt : β
+
+def Tab.getL {β : Type} : List (Nat × β) → β → Nat → β
+  | [], d, _ => d
+  | (a, v) :: r, d, x => if x = a then v else Tab.getL r d x
+
+instance {β : Type} : CoeFun (Tab β) (fun _ => Nat → β) := ⟨fun t => Tab.getL t.entries t.dflt⟩
+
+/-- the constant function -/
+def Tab.const {β : Type} (d : β) : Tab β := ⟨[], d⟩
+
 /-- function update (used for the object store and the `defaultdict`) -/
-@[noinline] def upd {β : Type} (h : Nat → β) (a : Nat) (v : β) : Nat → β := fun x => if x = a then v else h x
+def upd {β : Type} (h : Tab β) (a : Nat) (v : β) : Tab β := ⟨(a, v) :: h.entries, h.dflt⟩
+
+theorem upd_apply {β : Type} (h : Tab β) (a : Nat) (v : β) (x : Nat) : upd h a v x = if x = a then v else h x := rfl
+
+@[simp] theorem Tab.const_apply {β : Type} (d : β) (x : Nat) : Tab.const d x = d := rfl
 
 structure St where
   stack : List Nat
@@ -54,18 +74,18 @@ structure St where
   goals : List GRef
   goalsBt : List Nat
   maxGoals : List MaxEntry
-  maxBt : Nat → List Nat
-  heap : Nat → List (Nat × Nat)
+  maxBt : Tab (List Nat)
+  heap : Tab (List (Nat × Nat))
   next : Nat
 
-def St.init : St := ⟨[], [], [], [], [], fun _ => [], fun _ => [], 0⟩
+def St.init : St := ⟨[], [], [], [], [], Tab.const [], Tab.const [], 0⟩
 
 def lookup (id : Nat) : List MaxEntry → Option MaxEntry
   | [] => none
   | e :: es => if e.id = id then some e else lookup id es
 
 /-- `for k, (_, goal) in max_smt_goals.items(): max_smt_goals_backtrack[k].append(len(goal.soft))` -/
-def pushBt (heap : Nat → List (Nat × Nat)) : List MaxEntry → (Nat → List Nat) → (Nat → List Nat)
+def pushBt (heap : Tab (List (Nat × Nat))) : List MaxEntry → Tab (List Nat) → Tab (List Nat)
   | [], bt => bt
   | e :: es, bt => pushBt heap es (upd bt e.id ((heap e.addr).length :: bt e.id))
 
@@ -77,8 +97,8 @@ def pushOnce (st : St) : St :=
 
 /-- the loop over `max_smt_goals.items()` inside `pop` (script.py:306-312); `glen = len(goals)` after the
     truncation.  Returns the new `defaultdict` and object store. -/
-def popLoop (glen : Nat) : List MaxEntry → (Nat → List Nat) → (Nat → List (Nat × Nat)) →
-    Except Err ((Nat → List Nat) × (Nat → List (Nat × Nat)))
+def popLoop (glen : Nat) : List MaxEntry → Tab (List Nat) → Tab (List (Nat × Nat)) →
+    Except Err (Tab (List Nat) × Tab (List (Nat × Nat)))
   | [], bt, h => .ok (bt, h)
   | e :: es, bt, h =>
     if e.pos ≥ glen then popLoop glen es bt h            -- goals_to_remove.append(k)
@@ -88,7 +108,7 @@ def popLoop (glen : Nat) : List MaxEntry → (Nat → List Nat) → (Nat → Lis
 
 /-- `for k in goals_to_remove: … max_smt_goals_backtrack.pop(k, None)` (the unrepaired code used `del`, which
     raised KeyError for a goal created in the popped level: finding F41) -/
-def delKeys : List Nat → (Nat → List Nat) → (Nat → List Nat)
+def delKeys : List Nat → Tab (List Nat) → Tab (List Nat)
   | [], bt => bt
   | k :: ks, bt => delKeys ks (upd bt k [])
 
@@ -148,7 +168,7 @@ def runFrom : St → List Cmd → Except Err St
     | .error e => .error e
     | .ok st' => runFrom st' cs
 
-def resolve (heap : Nat → List (Nat × Nat)) : GRef → Goal
+def resolve (heap : Tab (List (Nat × Nat))) : GRef → Goal
   | .obj g => .obj g
   | .max a => .maxsmt (heap a)
 
